@@ -279,35 +279,37 @@ def consumers_keep_multiplicity(ctx) -> tuple[bool, str]:
 def rule_clip_before_cast(ctx, R: str):
   ctx.rule(R, 'values are rounded and clipped to the target type before the integer cast', floor=2)
   m = ctx.repo.mod(UQT)
-  inl = defuse.Inliner(ctx.repo)
   n_sites = 0
   for f in m.functions.values():
-    if '.' in f.qualname:
+    if '.' in f.qualname or f.name == 'assign_quantized_type':
       continue
-    for c in common.calls_in(f.node):
-      if not common.call_name(c).endswith('assign_quantized_type') or f.name == 'assign_quantized_type':
+    if not any(common.call_name(c).endswith('assign_quantized_type') for c in common.calls_in(f.node)):
+      continue
+    ps = defuse.paths(f.node, keep=frozenset({'quantization_params'}))
+    for p in ps:
+      if p.ret is None:
         continue
-      n_sites += 1
-      ctx.instance(R)
-      arg = c.args[0] if c.args else None
-      qtype = c.args[1] if len(c.args) > 1 else None
-      full = inl.inline(f, arg)
-      clips = defuse.calls_named(full, ('_round_and_clip',))
-      is_zp = isinstance(arg, ast.Name) and arg.id in ('zp', 'zero_point', 'zero_points')
-      if is_zp:
-        # exception with reason: the zero point is in range by construction (C17.R3)
-        rint = defuse.calls_named(full, ('rint', 'round', 'zeros_like', 'ones_like'))
-        ctx.check(R, bool(rint), c, f, c, 'zero point is cast without rounding')
-        continue
-      ok = bool(clips)
-      if ok and qtype is not None:
-        qsrc = defuse.norm(inl.inline(f, qtype))
-        ok = any(len(cl.args) > 1 and defuse.norm(inl.inline(f, cl.args[1])) == qsrc for cl in clips)
-        ctx.check(R, ok, c, f, c, 'value is clipped to a different integer type than it is cast to')
-      else:
-        ctx.check(R, ok, c, f, c, 'value is cast to the integer type without a preceding _round_and_clip (wraps around instead of saturating)')
+      for c in defuse.calls_named(p.ret, ('assign_quantized_type',)):
+        n_sites += 1
+        ctx.instance(R)
+        arg = c.args[0] if c.args else None
+        qtype = c.args[1] if len(c.args) > 1 else None
+        if isinstance(arg, ast.Call) and common.call_name(arg).endswith('_round_and_clip'):
+          same_t = qtype is not None and len(arg.args) > 1 and defuse.norm(arg.args[1]) == defuse.norm(qtype)
+          ctx.check(R, same_t, f.node, f, f'{f.name}: cast after clip ({p.cond_text()})',
+                    f'value is clipped to {defuse.norm(arg.args[1]) if len(arg.args) > 1 else "?"} but cast to {defuse.norm(qtype) if qtype is not None else "?"}')
+          continue
+        inner = defuse.norm(arg) if arg is not None else ''
+        if f.name == 'tensor_zp_scale_from_min_max':
+          # exception with reason: the zero point lies in [qmin, qmax] by
+          # construction because zero is forced into the range (C17.R2)
+          ctx.check(R, inner.startswith(('np.rint(', 'np.zeros_like(', 'np.ones_like(')), f.node, f,
+                    f'zero point cast ({p.cond_text()})', f'zero point {inner[:80]} is cast without rounding')
+          continue
+        ctx.check(R, False, f.node, f, f'{f.name}: {inner[:80]}',
+                  'value is cast to the integer type without a directly preceding _round_and_clip (wraps around instead of saturating)')
   rc = m.func('_round_and_clip')
   src = ast.unparse(rc.node)
   ctx.check(R, 'np.clip' in src and 'np.rint' in src, rc.node, rc, '_round_and_clip', '_round_and_clip no longer rounds to nearest and clips')
-  if n_sites < 2:
+  if n_sites < 3:
     raise index.AnalysisError(f'{R}: only {n_sites} integer cast sites found')
